@@ -319,6 +319,10 @@ def run(facts, rep, events, model):
                 if r.kind == "agg" and r.obj is not None:
                     for o in r.obj.get("ops", []):
                         out |= origins(b_, o, depth + 1, seen)
+                if r.kind == "binop" and r.obj is not None:
+                    for kk in ("a", "b"):
+                        if isinstance(r.obj.get(kk), dict):
+                            out |= origins(b_, r.obj[kk], depth + 1, seen)
                 continue
             c_ = str(r.what)
             key = (b_.id, r.bb, c_)
@@ -356,6 +360,12 @@ def run(facts, rep, events, model):
         """the result of try_lock_exclusive is computed from the libc::flock call and from Error::last_os_error(): the outcome
         of the lock attempt is what is reported (today: cvt_r(|| flock(..)).map(drop))"""
         os_ = origins(b_, {"l": 0})
+        # the outcome may also be DECIDED by the call (`if f() != -1 { Ok(()) } else { Err(last_os_error()) }`, once the
+        # helpers are folded in): the branch conditions of this small function count as well
+        for sb in range(b_.n):
+            tt = b_.term(sb)
+            if tt["k"] == "switch" and not b_.is_cleanup(sb):
+                os_ |= origins(b_, tt["d"])
         return any(o.startswith("libc::") and o.endswith("::flock") for o in os_) and any(o.endswith("Error::last_os_error") for o in os_)
 
     ok = returns_cvt_r(tle)
